@@ -211,3 +211,31 @@ func VC20HTTP1() { vHTTPRequests(1) }
 
 //verif: prop=C20 tier=thorough bounds="sequences of 2 requests (as VC20HTTP1)"
 func VC20HTTP2() { vHTTPRequests(2) }
+
+//verif: prop=C20 bounds="AtomicLevel.UnmarshalText on a level at any valid prior value, text from {a level name in either case of its first letter, a name with its last byte symbolic, a name plus one symbolic byte, 0..2 symbolic bytes, the empty text}: accepted iff the text names a level (the empty text reads as info), then exactly that level and visible to a logger built from the AtomicLevel earlier; otherwise an error and the level unchanged; MarshalText/String give the level's name back"
+func VC20AtomicText() {
+	prior := zapcore.Level(vrt.IntRange("prior", -1, 5))
+	al := NewAtomicLevelAt(prior)
+	rec := vNewCore("rec", al)
+	logger := New(rec)
+	text := ""
+	if vrt.Choice("empty", 2) == 0 {
+		text = vLevelText("t")
+	}
+	err := al.UnmarshalText([]byte(text))
+	want, ok := vRefLevelHTTP(text)
+	vrt.Observe("err", err != nil)
+	vrt.Observe("level", int8(al.Level()))
+	if ok {
+		vrt.Cover("accepted")
+		vrt.Assert("valid-text-accepted-with-exactly-that-level", err == nil && al.Level() == want)
+		mt, merr := al.MarshalText()
+		vrt.Assert("marshal-text-names-the-level", merr == nil && string(mt) == want.String() && al.String() == want.String())
+	} else {
+		vrt.Cover("rejected")
+		vrt.Assert("other-text-rejected-without-modifying-the-level", err != nil && al.Level() == prior)
+	}
+	nb := len(rec.st.writes)
+	logger.Info("probe")
+	vrt.Assert("loggers-built-earlier-see-the-level-in-force", (len(rec.st.writes) == nb+1) == (al.Level() <= InfoLevel))
+}
